@@ -590,9 +590,15 @@ func runRelayPorts(order []int, payloads [][]byte) {
 
 // ---- datagrams ----
 
-func runRelayUDP(svcPort int, which string, payload []byte) {
+func runRelayUDP(svcPort int, which string, payload []byte) { runRelayUDPSized(svcPort, which, payload, 0) }
+
+// replyLen > 0: the backend's reply is padded to that many bytes (replies larger than the query, up to 64 KiB)
+func runRelayUDPSized(svcPort int, which string, payload []byte, replyLen int) {
 	l := proxyLabGet()
 	line := "@relay " + which + " " + hx(payload)
+	if replyLen > 0 {
+		line += fmt.Sprintf(" %d", replyLen)
+	}
 	verdict := "ok"
 	viol := func(sig, d string) {
 		if verdict == "ok" {
@@ -608,7 +614,11 @@ func runRelayUDP(svcPort int, which string, payload []byte) {
 		if len(r) > 2 {
 			r[2] |= 0x80
 		}
-		return append(r, 1, 2, 3)
+		r = append(r, 1, 2, 3)
+		for i := 0; len(r) < replyLen; i++ {
+			r = append(r, byte(i*11))
+		}
+		return r
 	}
 	be.reset(rep)
 	l.decoyU.reset(nil)
@@ -830,6 +840,9 @@ func genC15(tier string, seed uint64) {
 		runRelayUDP(proxyLabGet().portCP, "udp", r.Bytes(r.Range(1, 1400)))
 		q, _ := dnsQuery(r)
 		runRelayUDP(5353, "dns", q)
+		// replies larger than the query: around 512 (the classic DNS limit) and the sizes a relay buffer might have
+		runRelayUDPSized(5353, "dns", q, []int{100, 511, 512, 513, 924, 1232, 1815, 4096, 9000}[d%9])
+		runRelayUDPSized(proxyLabGet().portCP, "udp", r.Bytes(r.Range(1, 200)), []int{512, 513, 1500, 4096, 4097, 32768, 60000}[d%7])
 	}
 	// the ssh proxy against a real ssh backend
 	genC15SSH(tier, r)
